@@ -229,6 +229,8 @@ pub mod built_in_join;
 pub mod time_out;
 pub mod infix;
 pub mod benchmark;
+#[cfg(feature = "verif-hooks")]
+pub mod verif_hooks;
 
 #[macro_use]
 pub mod macros;
